@@ -241,3 +241,16 @@ op("sk-fit-solution-read-under-temporary-config", ["C17", "C18"], PY, r"        
 op("py-control-jacobian-column-major", ["C03", "C04"], PY, r"        symbolic_control_jacobian = \[\]\n        if self\.control_size > 0:\n            symbolic_control_jacobian = process_matrix\.jacobian\(self\.arglist_control\)\n",
    "        symbolic_control_jacobian = [process_matrix.diff(control) for control in self.arglist_control]\n",
    also=[(PY, r"            statements=\[expr for expr in symbolic_control_jacobian\],", "            statements=[expr for column in symbolic_control_jacobian for expr in column],")])
+# round 6
+op("py-sqrt-from-sympy", ["C06"], PY, r"from math import sqrt\n", "", also=[(PY, r"from sympy import Matrix, Symbol, cse, simplify\n", "from sympy import Matrix, Symbol, cse, simplify, sqrt\n")])
+op("py-config-normalises-field", ["C17", "C18", "C06"], PY, r"(    innovation_filtering: float \| None = 5\.0\n)",
+   r"\1\n    def __post_init__(self):\n        if not self.innovation_filtering:\n            object.__setattr__(self, 'innovation_filtering', None)\n")
+op("py-ekf-class-level-records", ["C05", "C04", "C07"], PY, r"(class ExtendedKalmanFilter:\n    def __init__\()", r"class ExtendedKalmanFilter:\n    innovations: dict = {}\n    sensor_prediction_uncertainty: dict = {}\n\n    def __init__(",
+   also=[(PY, r"        self\.innovations = \{\}  # type: Dict\[str, NDArray\]\n        self\.sensor_prediction_uncertainty = \{\}  # type: Dict\[str, NDArray\]\n", "")])
+op("hdr-remainder-from-held-state", ["C10", "C11", "C12"], HDR, r"state = _impl\.process_model\(outputTime - iterTime, state\);", "state = _impl.process_model(outputTime - iterTime, _state.state);")
+op("common-named-vector-putmask", ["C01", "C13", "C19"], COMMON, r"            for idx, key in enumerate\(allowed_keys\):\n                if key in kwargs:\n                    val = kwargs\[key\]\n                    self\.data\[idx, 0\] = val\n",
+   "            if len(kwargs) > 0:\n                named = np.array([[key in kwargs] for key in allowed_keys])\n                values = np.fromiter((kwargs[key] for key in allowed_keys if key in kwargs), dtype=float, count=len(kwargs))\n                np.putmask(self.data, named, values)\n")
+op("common-named-covariance-block-write", ["C09", "C05"], COMMON, r"            for idx, key in enumerate\(allowed_keys\):\n                if key in kwargs:\n                    self\.data\[idx, idx\] = kwargs\[key\]\n",
+   "            named = [idx for idx, key in enumerate(allowed_keys) if key in kwargs]\n            if named:\n                self.data[np.ix_(named, named)] = [kwargs[allowed_keys[idx]] for idx in named]\n")
+op("cpp-subs-from-free-symbols", ["C15"], CPP, r"( +)expr_after = expr_before\.subs\(subs_set\)",
+   r"\1renames = dict(subs_set)\n\1expr_after = expr_before.subs([(s_, renames[s_]) for s_ in expr_before.free_symbols if s_ in renames])")
